@@ -62,6 +62,25 @@ func c06Expr(r *vkit.Rand, mi *vexec.MIndex, g *vexec.Gen) (c08Expr, bool) {
 	if len(pool) == 0 {
 		return c08Expr{}, false
 	}
+	// ... and values of the generator's vocabulary that no live record may hold any more (a
+	// list element or a value that an update replaced, a deleted record's value): a filter on
+	// such a value must not bring back the record that used to hold it
+	keys := map[string]bool{}
+	for _, p := range pool {
+		keys[p.k] = true
+	}
+	for _, k := range vexec.SortedKeys(keys) {
+		for n := 0; n < 2; n++ {
+			if r.Chance(0.5) {
+				pool = append(pool, kv{k, vkit.Pick(r, g.Words)})
+			} else {
+				pool = append(pool, kv{k, float64(r.Intn(7) - 2)})
+			}
+		}
+	}
+	for _, st := range c06Stale {
+		pool = append(pool, kv{st.k, st.v}, kv{st.k, st.v})
+	}
 	var e c08Expr
 	var texts []string
 	for b := 0; b < r.Range(1, 2); b++ {
@@ -285,6 +304,70 @@ func c06AbsMax(x *vexec.Exec, ix string) float32 {
 		return h.Quantizer().Range()
 	}
 	return 0
+}
+
+// c06Stale: (key, value) pairs that a record held and then lost through an update or a delete,
+// per case; c06Expr draws filter literals from them as well.
+var c06Stale []struct {
+	k string
+	v any
+}
+
+// c06ListStep: a record with a list value (given as []any, []string or []int, as an embedding
+// caller may) gets the list replaced by one that lacks an element, or is deleted; the element it
+// lost is remembered as a filter literal.
+func c06ListStep(cs *vkit.Case, x *vexec.Exec, g *vexec.Gen) {
+	r := cs.R
+	var names []string
+	for _, n := range vexec.SortedKeys(x.M.Idx) {
+		if mi := x.M.Idx[n]; mi.Dim != 0 && len(mi.Recs) > 0 {
+			names = append(names, n)
+		}
+	}
+	if len(names) == 0 {
+		return
+	}
+	ix := vkit.Pick(r, names)
+	mi := x.M.Idx[ix]
+	id := fmt.Sprintf("tl%d", r.Intn(3))
+	w1, w2, w3 := vkit.Pick(r, g.Words), vkit.Pick(r, g.Words), vkit.Pick(r, g.Words)
+	mk := func(a, b string, ints bool) any {
+		if ints {
+			return vkit.Pick(r, []any{[]int{len(a), len(b)}, []any{float64(len(a)), float64(len(b))}})
+		}
+		return vkit.Pick(r, []any{[]string{a, b}, []any{a, b}})
+	}
+	ints := r.Chance(0.3)
+	if _, live := mi.Recs[id]; !live {
+		v := make([]float32, mi.Dim)
+		for i := range v {
+			v[i] = r.F32()
+		}
+		if x.VAdd(ix, id, v, map[string]any{"tags": mk(w1, w2, ints), "cat": w1}) != nil {
+			return
+		}
+	}
+	if r.Chance(0.75) {
+		x.VSetMetadata(ix, id, map[string]any{"tags": mk(w2, w3, ints), "cat": w3})
+	} else {
+		x.VDelete(ix, id)
+	}
+	if ints {
+		c06Stale = append(c06Stale, struct {
+			k string
+			v any
+		}{"tags", float64(len(w1))})
+	} else {
+		c06Stale = append(c06Stale, struct {
+			k string
+			v any
+		}{"tags", w1})
+	}
+	c06Stale = append(c06Stale, struct {
+		k string
+		v any
+	}{"cat", w1})
+	cs.C.Count("list_replacement_steps", 1)
 }
 
 func c06Queries(ctx *vkit.Ctx, cs *vkit.Case, x *vexec.Exec, g *vexec.Gen) {
@@ -775,10 +858,13 @@ func TestVerifC06(t *testing.T) {
 				}
 			}()
 			g := vexec.NewGen(cs.R)
+			c06Stale = nil
 			nops := cs.R.Range(20, ctx.N(45, 70))
 			for i := 0; i < nops; i++ {
 				if cs.R.Chance(0.15) {
 					c06TextStep(cs, x, g)
+				} else if cs.R.Chance(0.06) {
+					c06ListStep(cs, x, g)
 				} else if cs.R.Chance(0.12) {
 					g.Admin(x)
 				} else {
